@@ -49,6 +49,7 @@ type Violation struct {
 	Msg     string
 	Inputs  []ReplayInput
 	Path    []int
+	MapOrder bool // the path drew map iteration orders: native replay must be retried
 }
 
 // ReplayInput is the concrete value of one input, in draw order.
@@ -385,7 +386,7 @@ func (m *machine) addViolation(kind, label, msg string, model smt.Model) {
 	}
 	m.violations = append(m.violations, Violation{
 		Harness: m.h.Name, Label: label, Kind: kind, Msg: msg,
-		Inputs: m.replayInputs(model), Path: append([]int(nil), m.log...),
+		Inputs: m.replayInputs(model), Path: append([]int(nil), m.log...), MapOrder: m.mapPerms > 0,
 	})
 }
 
